@@ -332,186 +332,201 @@ func (fe *FE) loopMods(li *loopInfo) {
 	scratch := func() *State {
 		return &State{vals: map[ssa.Value]Val{}, heap: map[string]string{}, ghosts: map[string]Val{}, names: map[string]Val{}, open: map[*ssa.BasicBlock]bool{}, cnt: "cnt!entry", unstable: map[string]bool{}}
 	}
-	for b := range li.body {
-		for _, ins := range b.Instrs {
-			switch x := ins.(type) {
-			case *ssa.Store:
-				base, t, ok := addrBase(x.Addr)
-				if !ok {
-					li.modAll = true
-					continue
+	var scan func(ins ssa.Instruction, depth int)
+	scan = func(ins ssa.Instruction, depth int) {
+		switch x := ins.(type) {
+		case *ssa.Store:
+			base, t, ok := addrBase(x.Addr)
+			if !ok {
+				li.modAll = true
+				return
+			}
+			add(base, t)
+		case *ssa.MapUpdate:
+			addMap(x.Map.Type().Underlying().(*types.Map))
+		case *ssa.Alloc:
+			et := derefType(x.Type())
+			switch {
+			case isStructType(et):
+				fe.structFieldBases(et, add)
+				if isNamed(et, "sync", "Mutex") || isNamed(et, "sync", "RWMutex") {
+					li.modHeap["G_held"] = true
 				}
-				add(base, t)
-			case *ssa.MapUpdate:
-				addMap(x.Map.Type().Underlying().(*types.Map))
-			case *ssa.Alloc:
-				et := derefType(x.Type())
-				switch {
-				case isStructType(et):
-					fe.structFieldBases(et, add)
-					if isNamed(et, "sync", "Mutex") || isNamed(et, "sync", "RWMutex") {
-						li.modHeap["G_held"] = true
-					}
-					if isNamed(et, "sync", "WaitGroup") {
-						li.modHeap["G_wg_added"] = true
-						li.modHeap["G_wg_forked"] = true
-						li.modHeap["G_wg_waited"] = true
-					}
-				case isArrayType(et):
-					add(elemBase(et.Underlying().(*types.Array).Elem()), et.Underlying().(*types.Array).Elem())
-				default:
-					add(cellBase(et), et)
-				}
-			case *ssa.MakeSlice:
-				et := x.Type().Underlying().(*types.Slice).Elem()
-				add(elemBase(et), et)
-			case *ssa.MakeMap:
-				addMap(x.Type().Underlying().(*types.Map))
-			case *ssa.Next:
-				li.modGh["visited"] = true
-				li.modGh["itercount"] = true
-				li.modGh["lastkey"] = true
-				if it, ok := x.Iter.(*ssa.Range); ok {
-					li.modGh["$visited_"+it.Name()] = true
-				}
-			case ssa.CallInstruction:
-				com := x.Common()
-				if bi, ok := com.Value.(*ssa.Builtin); ok {
-					switch bi.Name() {
-					case "append":
-						et := com.Args[0].Type().Underlying().(*types.Slice).Elem()
-						add(elemBase(et), et)
-						for _, oc := range fe.matchHooks(&callInfo{display: []string{"append", "append:" + shortPkgType(com.Args[0].Type())}}, "call") {
-							for _, cl := range oc.Clauses {
-								if cl.Kind == "after" || cl.Kind == "before" {
-									li.modGh[cl.Var] = true
-								}
-							}
-						}
-					case "delete":
-						addMap(com.Args[0].Type().Underlying().(*types.Map))
-					}
-					continue
-				}
-				var con *FuncContract
-				var callee *ssa.Function
-				var display []string
-				if com.IsInvoke() {
-					tn := types.TypeString(com.Value.Type(), func(p *types.Package) string { return p.Path() })
-					con = fe.V.C.Funcs[tn+"."+com.Method.Name()]
-					if con == nil {
-						con = fe.V.C.Funcs[shortPkgType(com.Value.Type())+"."+com.Method.Name()]
-					}
-					display = []string{tn + "." + com.Method.Name(), shortPkgType(com.Value.Type()) + "." + com.Method.Name()}
-				} else {
-					callee = com.StaticCallee()
-					if callee == nil {
-						if mc, ok := com.Value.(*ssa.MakeClosure); ok {
-							callee = mc.Fn.(*ssa.Function)
-						}
-					}
-					if callee != nil {
-						switch callee.String() {
-						case "(*sync.Mutex).Lock", "(*sync.Mutex).Unlock", "(*sync.RWMutex).Lock", "(*sync.RWMutex).Unlock":
-							li.modHeap["G_held"] = true
-							for _, oc := range fe.matchHooks(&callInfo{display: fe.V.displayNames(callee, fe.Fn)}, "call") {
-								for _, cl := range oc.Clauses {
-									if cl.Kind == "after" || cl.Kind == "before" {
-										if lb := strings.Index(cl.Var, "["); lb > 0 {
-											li.modHeap["G_"+strings.TrimSpace(cl.Var[:lb])] = true
-										} else {
-											li.modGh[cl.Var] = true
-										}
-									}
-								}
-							}
-							// acquiring a lock with a monitor invariant re-reads the state it protects
-							if fa, ok := com.Args[0].(*ssa.FieldAddr); ok {
-								stt := derefType(fa.X.Type())
-								fld := stt.Underlying().(*types.Struct).Field(fa.Field)
-								if inv := fe.V.lockInv["sub_"+structName(stt)+"_"+fld.Name()]; inv != nil {
-									for _, g := range inv.guarded {
-										add(g.base, g.t)
-										if sl, ok := g.t.Underlying().(*types.Slice); ok {
-											add(elemBase(sl.Elem()), sl.Elem())
-										}
-									}
-								}
-							}
-							continue
-						case "(*sync.WaitGroup).Add":
-							li.modHeap["G_wg_added"] = true
-						case "(*sync.WaitGroup).Done":
-							li.modHeap["G_wg_done"] = true
-						case "(*sync.WaitGroup).Wait":
-							li.modHeap["G_wg_waited"] = true
-						}
-						con = fe.V.contractFor(callee)
-						display = fe.V.displayNames(callee, fe.Fn)
-					}
-				}
-				if _, isGo := ins.(*ssa.Go); isGo {
+				if isNamed(et, "sync", "WaitGroup") {
+					li.modHeap["G_wg_added"] = true
 					li.modHeap["G_wg_forked"] = true
+					li.modHeap["G_wg_waited"] = true
 				}
-				// ghost variables updated by matching hooks
-				mode := "call"
-				if _, isGo := ins.(*ssa.Go); isGo {
-					mode = "go"
-				} else if _, isD := ins.(*ssa.Defer); isD {
-					mode = "defer"
-				}
-				for _, oc := range fe.matchHooks(&callInfo{display: display}, mode) {
-					for _, cl := range oc.Clauses {
-						if cl.Kind == "after" || cl.Kind == "before" {
-							if lb := strings.Index(cl.Var, "["); lb > 0 {
-								li.modHeap["G_"+strings.TrimSpace(cl.Var[:lb])] = true
-							} else {
+			case isArrayType(et):
+				add(elemBase(et.Underlying().(*types.Array).Elem()), et.Underlying().(*types.Array).Elem())
+			default:
+				add(cellBase(et), et)
+			}
+		case *ssa.MakeSlice:
+			et := x.Type().Underlying().(*types.Slice).Elem()
+			add(elemBase(et), et)
+		case *ssa.MakeMap:
+			addMap(x.Type().Underlying().(*types.Map))
+		case *ssa.Next:
+			li.modGh["visited"] = true
+			li.modGh["itercount"] = true
+			li.modGh["lastkey"] = true
+			if it, ok := x.Iter.(*ssa.Range); ok {
+				li.modGh["$visited_"+it.Name()] = true
+			}
+		case ssa.CallInstruction:
+			com := x.Common()
+			if bi, ok := com.Value.(*ssa.Builtin); ok {
+				switch bi.Name() {
+				case "append":
+					et := com.Args[0].Type().Underlying().(*types.Slice).Elem()
+					add(elemBase(et), et)
+					for _, oc := range fe.matchHooks(&callInfo{display: []string{"append", "append:" + shortPkgType(com.Args[0].Type())}}, "call") {
+						for _, cl := range oc.Clauses {
+							if cl.Kind == "after" || cl.Kind == "before" {
 								li.modGh[cl.Var] = true
 							}
 						}
 					}
+				case "delete":
+					addMap(com.Args[0].Type().Underlying().(*types.Map))
 				}
+				return
+			}
+			var con *FuncContract
+			var callee *ssa.Function
+			var display []string
+			if com.IsInvoke() {
+				tn := types.TypeString(com.Value.Type(), func(p *types.Package) string { return p.Path() })
+				con = fe.V.C.Funcs[tn+"."+com.Method.Name()]
 				if con == nil {
-					if callee != nil {
-						switch callee.String() {
-						case "(*sync.WaitGroup).Add", "(*sync.WaitGroup).Done", "(*sync.WaitGroup).Wait":
-							continue
+					con = fe.V.C.Funcs[shortPkgType(com.Value.Type())+"."+com.Method.Name()]
+				}
+				display = []string{tn + "." + com.Method.Name(), shortPkgType(com.Value.Type()) + "." + com.Method.Name()}
+			} else {
+				callee = com.StaticCallee()
+				if callee == nil {
+					if mc, ok := com.Value.(*ssa.MakeClosure); ok {
+						callee = mc.Fn.(*ssa.Function)
+					}
+				}
+				if callee != nil {
+					switch callee.String() {
+					case "(*sync.Mutex).Lock", "(*sync.Mutex).Unlock", "(*sync.RWMutex).Lock", "(*sync.RWMutex).Unlock":
+						li.modHeap["G_held"] = true
+						for _, oc := range fe.matchHooks(&callInfo{display: fe.V.displayNames(callee, fe.Fn)}, "call") {
+							for _, cl := range oc.Clauses {
+								if cl.Kind == "after" || cl.Kind == "before" {
+									if lb := strings.Index(cl.Var, "["); lb > 0 {
+										li.modHeap["G_"+strings.TrimSpace(cl.Var[:lb])] = true
+									} else {
+										li.modGh[cl.Var] = true
+									}
+								}
+							}
+						}
+						// acquiring a lock with a monitor invariant re-reads the state it protects
+						if fa, ok := com.Args[0].(*ssa.FieldAddr); ok {
+							stt := derefType(fa.X.Type())
+							fld := stt.Underlying().(*types.Struct).Field(fa.Field)
+							if inv := fe.V.lockInv["sub_"+structName(stt)+"_"+fld.Name()]; inv != nil {
+								for _, g := range inv.guarded {
+									add(g.base, g.t)
+									if sl, ok := g.t.Underlying().(*types.Slice); ok {
+										add(elemBase(sl.Elem()), sl.Elem())
+									}
+								}
+							}
+						}
+						return
+					case "(*sync.WaitGroup).Add":
+						li.modHeap["G_wg_added"] = true
+					case "(*sync.WaitGroup).Done":
+						li.modHeap["G_wg_done"] = true
+					case "(*sync.WaitGroup).Wait":
+						li.modHeap["G_wg_waited"] = true
+					}
+					con = fe.V.contractFor(callee)
+					display = fe.V.displayNames(callee, fe.Fn)
+				}
+			}
+			if _, isGo := ins.(*ssa.Go); isGo {
+				li.modHeap["G_wg_forked"] = true
+			}
+			// ghost variables updated by matching hooks
+			mode := "call"
+			if _, isGo := ins.(*ssa.Go); isGo {
+				mode = "go"
+			} else if _, isD := ins.(*ssa.Defer); isD {
+				mode = "defer"
+			}
+			for _, oc := range fe.matchHooks(&callInfo{display: display}, mode) {
+				for _, cl := range oc.Clauses {
+					if cl.Kind == "after" || cl.Kind == "before" {
+						if lb := strings.Index(cl.Var, "["); lb > 0 {
+							li.modHeap["G_"+strings.TrimSpace(cl.Var[:lb])] = true
+						} else {
+							li.modGh[cl.Var] = true
 						}
 					}
-					li.modAll = true
-					continue
 				}
-				if !con.ModSet {
-					if !(con.Pure || con.Extern || con.Iface) {
-						li.modAll = true
-					}
-					continue
-				}
-				// resolve items to heap names with a scratch evaluation
-				sst := scratch()
-				ci := &callInfo{fn: callee, con: con}
-				if callee != nil {
-					for _, p := range callee.Params {
-						ci.names = append(ci.names, p.Name())
-						ci.args = append(ci.args, fe.dummyVal(p.Type()))
-					}
-					ci.binds = map[string]Val{}
-					for _, p := range callee.FreeVars {
-						ci.binds[p.Name()] = fe.dummyVal(p.Type())
-					}
-				} else if com.IsInvoke() {
-					ci.names = []string{"recv"}
-					ci.args = []Val{fe.dummyVal(com.Value.Type())}
-				}
-				cc := fe.calleeCtx(sst, ci)
-				saveErrs := len(fe.errs)
-				for _, it := range fe.V.expandFrames(con.Modifies) {
-					for _, n := range fe.havocItem(sst, cc, it, "scan") {
-						li.modHeap[n] = true
-					}
-				}
-				_ = saveErrs
 			}
+			if con == nil && callee != nil && depth < 3 && !com.IsInvoke() {
+				if _, isCall := ins.(*ssa.Call); isCall && fe.inlinable(&State{}, callee) && len(fe.matchHooks(&callInfo{display: display}, "call")) == 0 {
+					// a contract-less loop-free helper is executed in place: its effects are those of its instructions
+					for _, cb := range callee.Blocks {
+						for _, ci2 := range cb.Instrs {
+							scan(ci2, depth+1)
+						}
+					}
+					return
+				}
+			}
+			if con == nil {
+				if callee != nil {
+					switch callee.String() {
+					case "(*sync.WaitGroup).Add", "(*sync.WaitGroup).Done", "(*sync.WaitGroup).Wait":
+						return
+					}
+				}
+				li.modAll = true
+				return
+			}
+			if !con.ModSet {
+				if !(con.Pure || con.Extern || con.Iface) {
+					li.modAll = true
+				}
+				return
+			}
+			// resolve items to heap names with a scratch evaluation
+			sst := scratch()
+			ci := &callInfo{fn: callee, con: con}
+			if callee != nil {
+				for _, p := range callee.Params {
+					ci.names = append(ci.names, p.Name())
+					ci.args = append(ci.args, fe.dummyVal(p.Type()))
+				}
+				ci.binds = map[string]Val{}
+				for _, p := range callee.FreeVars {
+					ci.binds[p.Name()] = fe.dummyVal(p.Type())
+				}
+			} else if com.IsInvoke() {
+				ci.names = []string{"recv"}
+				ci.args = []Val{fe.dummyVal(com.Value.Type())}
+			}
+			cc := fe.calleeCtx(sst, ci)
+			saveErrs := len(fe.errs)
+			for _, it := range fe.V.expandFrames(con.Modifies) {
+				for _, n := range fe.havocItem(sst, cc, it, "scan") {
+					li.modHeap[n] = true
+				}
+			}
+			_ = saveErrs
+		}
+	}
+	for b := range li.body {
+		for _, ins := range b.Instrs {
+			scan(ins, 0)
 		}
 	}
 }
